@@ -216,6 +216,12 @@ Fixpoint adjacent (l : list Z) : bool :=
   | _ => true
   end.
 
+Fixpoint some_adjacent (l : list Z) : bool :=
+  match l with
+  | a :: ((b :: _) as r) => (b - a =? 1) || some_adjacent r
+  | _ => false
+  end.
+
 Section Ops.
   Variable V : Type.
   Variable veqb : V -> V -> bool.
@@ -301,9 +307,12 @@ Section Ops.
 
   Definition coo_moveaxis (x : coo V) (source destination : axarg) : res (coo V) :=
     let nd := ndim x in
+    (* the order of the statements is GENERATED (s_moveaxis_normalize_first): the axes are normalised first, then
+       the repeated-destination test runs on the normalised tuple *)
+    if negb s_moveaxis_normalize_first && has_dup (ax_list destination) then Raise ValueError else
     src <- norm_axes nd (ax_list source) ;;
     dst <- norm_axes nd (ax_list destination) ;;
-    if has_dup dst then Raise ValueError                      (* repeated axis in `destination`   (commit 1529999) *)
+    if s_moveaxis_normalize_first && has_dup dst then Raise ValueError   (* repeated axis in `destination`   (commit 1529999) *)
     else if negb (length src =? length dst)%nat then Raise ValueError
     else coo_transpose x (Some (moveaxis_order nd src dst)).
 
@@ -359,9 +368,11 @@ Section Ops.
      holds for every shift on the default index type intp (narrow / unsigned coordinate types are
      property C15), so it does not appear below. *)
 
-  (* for sh, ax in zip(shift, axis): coords[ax] += sh; coords[ax] %= a.shape[ax] *)
+  (* for sh, ax in zip(shift, axis, strict=True): coords[ax] += sh; coords[ax] %= a.shape[ax]
+     — a sequential fold over the pairs (pairs naming the same axis accumulate); the loop statement is pinned
+     and its step GENERATED (Gen/S_shapeops.v: s_roll_step) *)
   Definition roll_idx (shp : shape) (pairs : list (Z * Z)) (c : idx) : idx :=
-    fold_left (fun nc p => let '(s, a) := p in zset nc a ((zget nc a 0 + s) mod zget shp a 0)) pairs c.
+    fold_left (fun nc p => let '(s, a) := p in zset nc a (s_roll_step (zget nc a 0) s (zget shp a 0))) pairs c.
 
   Definition coo_roll_axes (x : coo V) (shift : shiftarg) (axis : list Z) : res (coo V) :=
     ax <- norm_axes (ndim x) axis ;;
@@ -424,7 +435,9 @@ Section Ops.
         let bsr := bshape_rev s1 s2 in
         let bs := rev bsr in
         let params := rev (bparams_rev s1 bsr) in
-        let srt := adjacent (true_positions params 0) in
+        (* sorted = all(d == 1 for d in diffs)  — the quantifier is GENERATED (s_broadcast_sorted_all) *)
+        let srt := if s_broadcast_sorted_all then adjacent (true_positions params 0)
+                   else some_adjacent (true_positions params 0) in
         if existsb (fun d => d <? 0) bs then Raise ValueError
         else Ok (coo_make bs (expand_entries params bs (entries x)) (c_fill x) srt).
 End Ops.
